@@ -208,8 +208,8 @@ Proof.
   - intros ns ls es b l _ _ _ IHes IHb. cbn [tb_shp_stat]. rewrite (forallb_of_Forall _ _ IHes), IHb. reflexivity.
   - intros vars es l Hv _ IHes. cbn [tb_shp_stat]. rewrite (forallb_of_Forall _ _ IHes), andb_true_r.
     apply forallb_forall. rewrite Forall_forall in Hv. intros v Hin. destruct (Hv v Hin) as (n & ln & -> & _). reflexivity.
-  - intros ns ls at_ es l _ Hlen Hle _ IHes. cbn [tb_shp_stat].
-    apply andb_true_iff. split; [apply andb_true_iff; split; [apply Nat.eqb_eq; exact Hlen|apply Nat.leb_le; exact Hle]|].
+  - intros ns ls at_ es l _ Hlen _ IHes. cbn [tb_shp_stat].
+    apply andb_true_iff. split; [apply Nat.eqb_eq; exact Hlen|].
     exact (forallb_of_Forall _ _ IHes).
   - intros n nl f ps pl b lf va l _ _ IH. exact IH.
   - intros ss ret l _ IHss _ IHret. cbn [tb_shp_block]. rewrite (forallb_of_Forall _ _ IHss). cbn [andb].
